@@ -203,6 +203,9 @@ func TestC08(t *testing.T) {
 			kinds = linKinds
 		}
 		genConc(g, prog, kinds, 4, 4)
+		if lin && g.pct("contend") < 30 {
+			genContend(g, prog)
+		}
 		prog.Aux["lin"] = lin
 		prog.Aux["procs"] = pickU(g, []int{2, 4, 16}, "procs")
 		guard(rt, prog, func() { caseC08(rt, prog) })
@@ -361,4 +364,35 @@ func caseC08(t TB, prog *Program) {
 
 func init() {
 	replayers["C08"] = func(t *testing.T, prog *Program) { guardT(t, prog, func() { caseC08(t, prog) }) }
+}
+
+// genContend: writers race for the same unique values with the conflicting
+// member NOT in first position of their batches - the shape that exposes a
+// check-then-act window between validation and insertion.
+func genContend(g *G, prog *Program) {
+	prog.Cfg.Cons = map[string]Cons{"U8": {Index: true, Unique: true}}
+	prog.Cfg.Async = nil
+	if len(prog.Ops) > 2 {
+		prog.Ops = prog.Ops[:2]
+	}
+	nw := 2 + g.uni(3, "cworkers")
+	var ws [][]COp
+	for w := 0; w < nw; w++ {
+		var ops []COp
+		for i, n := 0, 1+g.uni(2, "cops"); i < n; i++ {
+			var batch []COp
+			for k, m := 0, 1+g.uni(3, "cfresh"); k < m; k++ {
+				batch = append(batch, COp{Kind: "insert", D: &Doc{U8: uint8(20 + w*40 + i*10 + k), S: "fresh"}})
+			}
+			batch = append(batch, COp{Kind: "insert", D: &Doc{U8: uint8(4 + g.uni(2, "shared")), S: "contended"}})
+			if g.pct("single") < 25 {
+				ops = append(ops, COp{Kind: "insert", D: batch[len(batch)-1].D})
+			} else {
+				ops = append(ops, COp{Kind: "many", Batch: batch})
+			}
+		}
+		ws = append(ws, ops)
+	}
+	prog.Aux["workers"] = ws
+	prog.Aux["contend"] = true
 }
